@@ -223,3 +223,17 @@ Lemma port_examples :
   flat (rplus (RSet cs_port)) = true /\
   paths (rplus (rplus (RSet cs_name))) (repeat 97%Z 10) = 1023%nat.
 Proof. vm_compute. repeat split. Qed.
+
+(* F-C11-blank-run-cubic: three adjacent runs that all accept a blank -  \s* (.*?) \s*  between the parentheses of every
+   declaration / method pattern - are flat, hence polynomial, but of degree 3: C(n + 3, 3) paths on n blanks *)
+Definition cs_space : cset := mk_cset [(9, 13); (28, 32)]%Z true.
+Definition cs_any : cset := mk_cset [(0, 9); (11, 127)]%Z true.
+Definition blank_args : rx := RSeq (RStar (RSet cs_space)) (RSeq (RStar (RSet cs_any)) (RStar (RSet cs_space))).
+
+Lemma blank_args_cubic :
+  flat blank_args = true /\
+  Z.of_nat (paths blank_args (repeat 32%Z 8)) = 165%Z /\
+  Z.of_nat (paths blank_args (repeat 32%Z 16)) = 969%Z /\
+  Z.of_nat (paths blank_args (repeat 32%Z 32)) = 6545%Z /\
+  Z.of_nat (paths blank_args (repeat 32%Z 64)) = 47905%Z.
+Proof. vm_compute. repeat split. Qed.
